@@ -4,7 +4,7 @@
           relationship type);
    valid = accepted by the constructors (meaning <= 64, graphic-data rules). *)
 From Coq Require Import String ZArith List Bool QArith.
-From HD Require Import Base.Val C13_Model C13_Proofs C13_Proofs_Seq C13_Proofs_Num.
+From HD Require Import Base.Val C13_Model C13_Proofs C13_Proofs_Seq C13_Proofs_Num C13_Proofs_Hist.
 Import ListNotations.
 Open Scope string_scope.
 Open Scope list_scope.
@@ -566,3 +566,78 @@ Example C13_sequence_nonvacuous :
   from_sequence_m MCtx [to_ds (ex_txt "a" "1")] = Err "AttributeError".
 Proof. eexists. split; [reflexivity|]. vm_compute. repeat split; reflexivity. Qed.
 Print Assumptions C13_sequence_nonvacuous.
+
+(* ---- (11) the value is not shared with the caller: histories of reads on ONE
+   SCOORD / SCOORD3D item (read, change a returned array / the constructor
+   argument / the source dataset in place, read again, serialise + parse +
+   read) ---- *)
+(* in-place changes of arrays obtained earlier do not exist for the item *)
+Theorem C13_reads_ignore_scribbles : forall k ops d,
+  hist_run k d ops = hist_run k d (filter (fun o => negb (is_scribble o)) ops).
+Proof. exact hist_ignores_scribbles. Qed.
+Print Assumptions C13_reads_ignore_scribbles.
+
+(* while nobody edits GraphicData, EVERY read of a history - on the item or on
+   its serialised-and-parsed copy - reports the constructed points *)
+Theorem C13_reads_report_constructed : forall k pts ops, (0 < k)%nat -> rows_nat k pts ->
+  Forall no_edit ops ->
+  snd (hist_run k (concat pts) ops) = concat pts /\
+  Forall (fun e => e = vq_rows pts) (fst (hist_run k (concat pts) ops)).
+Proof. exact hist_reports_constructed. Qed.
+Print Assumptions C13_reads_report_constructed.
+
+(* ... and after item.GraphicData = l the reads report l *)
+Theorem C13_reads_follow_assignment : forall k d l ops,
+  hist_run k d (HAssign l :: HRead :: ops) =
+  (read_rows k l :: fst (hist_run k l ops), snd (hist_run k l ops)).
+Proof. exact hist_assign_then_read. Qed.
+Print Assumptions C13_reads_follow_assignment.
+
+Example C13_history_nonvacuous :
+  run_hist 2 [[1; 2]; [3; 4]]%Q [HRead; HScribble; HRead; HEdit (-1) 9; HRead; HRoundTrip; HEdit 4 0;
+                                  HAssign [5; 6; 7]%Q; HRead] =
+  VL [VL [vq_rows [[1; 2]; [3; 4]]%Q; vq_rows [[1; 2]; [3; 4]]%Q; VS "ok"; vq_rows [[1; 2]; [3; 9]]%Q;
+          vq_rows [[1; 2]; [3; 9]]%Q; vq_rows [[1; 2]; [3; 9]]%Q; VErr "IndexError"; VErr "ValueError"];
+      vq_list [5; 6; 7]%Q].
+Proof. vm_compute. reflexivity. Qed.
+Print Assumptions C13_history_nonvacuous.
+
+(* ---- (12) coplanarity is a property of the point SET: the verdict does not
+   depend on the order of the vertices, on where the contour starts or on
+   repeated vertices, and a non-coplanar subset condemns the whole contour ---- *)
+Theorem C13_coplanar_same_points : forall ps qs : list v3, (forall p, In p ps <-> In p qs) ->
+  coplanar_v ps = coplanar_v qs.
+Proof. exact coplanar_same_points. Qed.
+Print Assumptions C13_coplanar_same_points.
+
+Theorem C13_coplanar_rotate : forall ps qs : list v3, coplanar_v (ps ++ qs) = coplanar_v (qs ++ ps).
+Proof. exact coplanar_rotate. Qed.
+Print Assumptions C13_coplanar_rotate.
+
+Theorem C13_noncoplanar_anywhere : forall bad : list v3,
+  coplanar_v bad = false -> forall ps, incl bad ps -> coplanar_v ps = false.
+Proof. exact noncoplanar_anywhere. Qed.
+Print Assumptions C13_noncoplanar_anywhere.
+
+(* the plane through the FIRST THREE points decides nothing when they are
+   collinear (or repeat each other): a closed contour whose first edge carries a
+   vertex in its middle, with a later vertex lifted out of the plane, is refused *)
+Definition ex_collinear_start : list (list Q) :=
+  [[0; 0; 5]; [4; 0; 5]; [8; 0; 5]; [8; 8; 5]; [0; 8; 9]; [0; 0; 5]]%Q.
+Example C13_collinear_start_refused :
+  zero_b (cross (vsub (4, 0, 5) (0, 0, 5)) (vsub (8, 0, 5) (0, 0, 5)))%Q = true /\
+  closed ex_collinear_start = true /\ coplanar ex_collinear_start = false /\
+  scoord3d_check G3Polygon ex_collinear_start = Err "ValueError" /\
+  scoord3d_check G3Polygon [[0; 0; 5]; [0; 0; 5]; [8; 0; 5]; [8; 8; 5]; [0; 8; 9]; [0; 0; 5]]%Q = Err "ValueError" /\
+  scoord3d_check G3Polygon [[0; 0; 5]; [4; 0; 5]; [8; 0; 5]; [8; 8; 5]; [0; 8; 5]; [0; 0; 5]]%Q = Ok tt.
+Proof. vm_compute. repeat split; reflexivity. Qed.
+Print Assumptions C13_collinear_start_refused.
+
+(* ---- a single time offset of 0 s (pydicom stores the scalar 0.0, which is
+   falsy): the value comes back, from the constructed item and after parsing ---- *)
+Example C13_tcoord_zero_offset :
+  let t := Item TcoordContentItem ex_code (Some CONTAINS) (VTcoord TPoint (TOffsets [0%Q])) [] in
+  wf t /\ construct t = Ok t /\ parse (Some TcoordContentItem) (to_ds t) = Ok t /\
+  from_sequence [to_ds t] = Ok [t].
+Proof. split; [|vm_compute; repeat split; reflexivity]. repeat split; constructor. Qed.
+Print Assumptions C13_tcoord_zero_offset.
